@@ -298,7 +298,8 @@ def formulas_of(c):
     if k == 'basert':
         return ['DECIMAL(BASE(%d,%d),%d)' % (c['n'], c['r'], c['r'])]
     if k == 'roman':
-        return ['ROMAN(%d,%d)' % (c['n'], f) for f in range(5)] + ['ARABIC(ROMAN(%d))' % c['n']]
+        nt = '%d.0' % c['n'] if c.get('fl') else '%d' % c['n']          # fl: the number arrives as the equal float
+        return ['ROMAN(%s,%d)' % (nt, f) for f in range(5)] + ['ARABIC(ROMAN(%s))' % nt]
     if k == 'complex':
         return ['IMREAL(COMPLEX(%d,%d))' % (c['a'], c['b']), 'IMAGINARY(COMPLEX(%d,%d))' % (c['a'], c['b'])]
     if k == 'formula':
@@ -330,10 +331,11 @@ def impl(c):
             return [HANG, None]
         return [t, call('DECIMAL', [t, c['r']], traced=True)]
     if k == 'roman':
-        out = [call('ROMAN', [c['n'], f], traced=True) for f in range(5)]
+        n = float(c['n']) if c.get('fl') else c['n']
+        out = [call('ROMAN', [n, f], traced=True) for f in range(5)]
         if any(o is HANG for o in out):
             return out + [None]
-        return out + [call('ARABIC', [call('ROMAN', [c['n']])], traced=True)]
+        return out + [call('ARABIC', [call('ROMAN', [n])], traced=True)]
     if k == 'complex':
         z = call('COMPLEX', [c['a'], c['b']])
         return [z, call('IMREAL', [z]), call('IMAGINARY', [z])]
@@ -380,6 +382,8 @@ def noise_excuse(c, v, m):
             x, d = Fraction(a[0]), a[1]
             if not isinstance(a[0], float):
                 return False          # ints are exact in the model AND should be exact in the code
+            if isinstance(d, bool) or not isinstance(d, int) or abs(d) > 400:
+                return False          # no noise to excuse that far out (and 10^digits is not formed)
             unit = Fraction(10) ** (-d)
             scaled = abs(x) / unit
         elif fn.split('.')[0] in ('CEILING', 'FLOOR'):
@@ -880,6 +884,10 @@ def cases(rng, ctx):
     for fn in ('INT', 'EVEN', 'ODD', 'SIGN'):
         for x in list(range(-6, 7)) + [0.0, 0.5, -0.5, 1.5, -1.5, 2.0, -2.0, 1e-9, -1e-9, 3.999, -3.999]:
             add('unary', fn, x)
+        # Python ints beyond the doubles' 53 bits (ids, nanosecond time stamps): exact, never through a float
+        for x in [2 ** 53 + 1, -(2 ** 53) - 1, 12345678901234567, -12345678901234567, 10 ** 20 + 1, -(10 ** 20) - 3, 10 ** 30 + 7, 2 ** 64 - 1,
+                  rng.randrange(2 ** 53, 2 ** 63) | 1, -(rng.randrange(2 ** 53, 2 ** 63) | 1)]:
+            add('unary', fn, x)
         for _ in range(n):
             add('unary', fn, gen_number(rng))
 
@@ -1042,6 +1050,9 @@ def cases(rng, ctx):
     # ---- ROMAN / ARABIC: complete
     for x in range(1, 4000):
         out.append({'kind': 'roman', 'n': x})
+    # ... and the same whole numbers arriving as floats (the result of a division, of ROUND, a host float)
+    for x in sorted(set(list(range(1, 4000, 37)) + [1, 4, 9, 49, 499, 1994, 3888, 3999] + [rng.randrange(1, 4000) for _ in range(60 * sc)])):
+        out.append({'kind': 'roman', 'n': x, 'fl': True})
     for _ in range((4000 if thorough else 500) * sc):
         q = rng.random()
         if q < 0.5:
